@@ -462,6 +462,18 @@ class C01CtlProj(ControlProjector):
         return None
 
 
+class C07CtlProj(ControlProjector):
+    """sequential histories through the RPC command handler: pause / resume results, and for requests that meet a paused
+    service whether they are held and for how long before the 504 (every max-pause incl. zero), also across restarts"""
+    def step(self, kind, op, a, b):
+        self.track(kind, op, a, b)
+        if kind in ('pause', 'resume'):
+            return a, b, kind == 'pause'
+        if kind == 'req' and ('held' in a or 'held' in b):
+            return a, b, True
+        return None
+
+
 class C09CtlProj(ControlProjector):
     """sequential histories with targets that stop and resume answering probes (before and after restarts): which target
     answers each request, and 503 when none is healthy"""
@@ -626,7 +638,7 @@ PROPS = {
     'C03': dict(engines=[proxy(C03Proj)], assumptions=PROXY_ASSUME,
                 rule=RULE_PROXY + "Compared for C03: virtual time and result of every command return, 504 cut-offs, which generation receives requests. "
                      "Non-trivial = a command returns or a request is cut with 504."),
-    'C07': dict(engines=[proxy(C07Proj)], assumptions=PROXY_ASSUME,
+    'C07': dict(engines=[proxy(C07Proj), control(C07CtlProj, 100, 4000)], assumptions=PROXY_ASSUME,
                 rule=RULE_PROXY + "Compared for C07: how and when (virtual ns) each request ends, gate command results. Non-trivial = a request "
                      "ends on resume, stop or a timer."),
     'C09': dict(engines=[proxy(C09Proj), control(C09CtlProj, 100, 4000)], assumptions=PROXY_ASSUME,
